@@ -38,6 +38,11 @@ impl PreprocessedText {
     }
 
     fn push<T: AsRef<Path>>(&mut self, s: &str, origin: Option<(T, Range)>) {
+        // An empty segment would compare equal to the segment that follows it
+        // and shadow that segment's origin.
+        if s.is_empty() {
+            return;
+        }
         let base = self.text.len();
         self.text.push_str(s);
 
